@@ -1969,6 +1969,12 @@ coap_retransmit(coap_context_t *context, coap_queue_t *node) {
          in progress. node was moved to the send queue of the session. */
       return node->id;
     }
+    if (bytes_written < 0 && node->pdu->type == COAP_MESSAGE_CON &&
+        COAP_PROTO_NOT_RELIABLE(node->session->proto)) {
+      /* Nothing was written: node is back in the sendqueue and still
+         occupies its NSTART slot */
+      node->session->con_active++;
+    }
 
     if (bytes_written < 0)
       return (int)bytes_written;
